@@ -72,6 +72,9 @@ func ValidateAgainstSingleSchema(values Values, schemaJSON []byte) (reterr error
 	slog.Debug("unmarshalled JSON schema", "schema", schemaJSON)
 
 	compiler := jsonschema.NewCompiler()
+	// Only the chart's own schema document (and the embedded meta-schemas) may
+	// be used: never load a referenced resource from the host or the network.
+	compiler.UseLoader(noExternalLoader{})
 	err = compiler.AddResource("file:///values.schema.json", schema)
 	if err != nil {
 		return err
@@ -110,4 +113,11 @@ func (e JSONSchemaValidationError) Error() string {
 
 	// The extra new line is needed for when there are sub-charts.
 	return errStr + "\n"
+}
+
+// noExternalLoader refuses every schema resource that is not values.schema.json itself.
+type noExternalLoader struct{}
+
+func (noExternalLoader) Load(url string) (any, error) {
+	return nil, fmt.Errorf("external schema reference %q is not allowed; only references within values.schema.json are supported", url)
 }
